@@ -1095,6 +1095,12 @@ where
         let path1 = path.clone();
         let env = env.to_vec();
 
+        // modification time of the file at `path` itself: a registered proxy is only
+        // trusted for as long as the file it was detected in is still in place
+        let path_mtime = metadata(&path)
+            .map(|attr| FileTime::from_last_modification_time(&attr))
+            .ok();
+
         let resolved_with_proxy = {
             let compiler_proxies_borrow = self.compiler_proxies.read().await;
             // Create an owned future - compiler proxy is not Send so we can't
@@ -1102,6 +1108,7 @@ where
             let resolve_proxied_executable =
                 compiler_proxies_borrow
                     .get(&path)
+                    .filter(|(_compiler_proxy, filetime)| Some(*filetime) == path_mtime)
                     .map(|(compiler_proxy, _filetime)| {
                         compiler_proxy.resolve_proxied_executable(
                             self.creator.clone(),
@@ -1204,17 +1211,18 @@ where
                 // register the proxy for this compiler, so it will be used directly from now on
                 // and the true/resolved compiler will create table hits in the hash map
                 // based on the resolved path
-                if let Some(proxy) = proxy {
+                if let (Some(proxy), Some(path_mtime)) = (proxy, path_mtime) {
                     trace!(
                         "Inserting new path proxy {:?} @ {:?} -> {:?}",
                         &path,
                         &cwd,
                         resolved_compiler_path
                     );
+                    // remember the proxy's own mtime (`mtime` may be that of the proxied compiler)
                     me.compiler_proxies
                         .write()
                         .await
-                        .insert(path, (proxy, mtime));
+                        .insert(path, (proxy, path_mtime));
                 }
                 // TODO add some safety checks in case a proxy exists, that the initial `path` is not
                 // TODO the same as the resolved compiler binary
